@@ -95,7 +95,17 @@ def run(chk, ctx):
             chk.decide("C09.MULT", cons, True if mult == exp else (None if mult == "?" else False),
                        f"{run_.cname}{cfg} permits {mult} adjoint calculation(s); documented: {exp}",
                        rel=run_.rel, node=run_.fn)
-        # ---- REPEAT
+        # ---- REPEAT: an adjoint calculation that consists of its EndReverse only (the action before it is EndForward or the
+        # previous EndReverse) reverses nothing: it is not a repeat of the first.  Decided on the recorded states,
+        # including those of the exactly followed second pass; refutation only.
+        for rec in recs(it, ("EndReverse",)):
+            if run_.owner == "RevolveCheckpointSchedule":
+                break       # the converter's order of actions comes from the operation sequence, not from its shape
+            ls = last_set(rec.state)
+            if ls and all(y.startswith(("EndReverse", "EndForward")) for y in ls) and rec.state.enum_single("$ef") == "1":
+                chk.decide("C09.REPEAT", ycons(run_, rec) + "/empty-pass", False,
+                           f"EndReverse directly after {sorted(ls)}: this adjoint calculation contains no Reverse at all"
+                           + (f" under {cfg}" if cfg else ""), rel=run_.rel, node=rec.node)
         wrote_after_ef = any(rec.kind == "Forward" and rec.state.enum_single("$ef") == "1" and
                              (rec.arg(2, "write_ics") == TRUE or
                               (rec.arg(3, "write_adj_deps") == TRUE and rec.arg(4, "storage") != WORK))
